@@ -520,3 +520,33 @@ func exitIsRespelling(sig string, known map[string]bool) bool {
 	}
 	return true
 }
+
+// ---- R-LK: which maps a planner function consults ----
+
+// lookupsOf: descriptions of the maps fn looks keys up in (m[k], v, ok := m[k]), including
+// the lookups of functions it calls that the audited tree does not have (new helpers).
+func lookupsOf(p *Prog, fn *ssa.Function, depth int, seen map[*ssa.Function]bool) map[string]bool {
+	out := map[string]bool{}
+	if fn == nil || seen[fn] || depth > 2 {
+		return out
+	}
+	seen[fn] = true
+	for _, b := range fn.Blocks {
+		for _, in := range b.Instrs {
+			switch x := in.(type) {
+			case *ssa.Lookup:
+				if _, isMap := x.X.Type().Underlying().(*types.Map); isMap {
+					out[descValue(x.X, 1)] = true
+				}
+			case ssa.CallInstruction:
+				f := x.Common().StaticCallee()
+				if f != nil && isModFunc(f) && f.Parent() == nil && auditedFnNames != nil && !auditedFnNames[shortName(f)] {
+					for d := range lookupsOf(p, f, depth+1, seen) {
+						out[d] = true
+					}
+				}
+			}
+		}
+	}
+	return out
+}
